@@ -78,16 +78,21 @@ RecLast(x, a) ==
     rec_volumes |-> <<Last(r.rec_volumes[1]), Last(r.rec_volumes[2])>>,
     trade_vols |-> Last(r.trade_vols) ]
 
+\* events of a simulation environment carry the environment's own observables; events recorded from a
+\* plain Market (record_market.rs) carry the all-asset queries instead
+IsEnvEv(e) == "pending" \in DOMAIN e
+
 EnvDelta(old, new, e) ==
   << <<"assets", Len(e.books) = Len(new.books)>>,
      <<"now", \A a \in 1..Len(new.books) : new.books[a].now = e.now>>,
-     <<"pending_queue", [k \in 1..Len(new.pending) |-> InstrTuple(new.pending[k])] = e.pending>>,
-     <<"nsteps", new.nsteps = e.nsteps>>,
-     <<"env_order_and_trade_getters_show_the_books_records", e.env_getters_agree>>,
-     <<"cached_level2", new.l2 = e.l2>>,
-     <<"record_lengths", \A a \in 1..Len(new.books) : Len(new.rec[a]) = e.rec_len[a] /\ Len(new.tvols[a]) = e.rec_len[a]>>,
-     <<"record_last_entries", \A a \in 1..Len(new.books) : e.rec_len[a] > 0 => RecLast(new, a) = e.rec_last[a]>>,
-     <<"record_series", ("rec" \in DOMAIN e) => \A a \in 1..Len(new.books) : RecViews(new, a) = e.rec[a]>> >>
+     <<"pending_queue", IsEnvEv(e) => [k \in 1..Len(new.pending) |-> InstrTuple(new.pending[k])] = e.pending>>,
+     <<"nsteps", IsEnvEv(e) => new.nsteps = e.nsteps>>,
+     <<"env_order_and_trade_getters_show_the_books_records", IsEnvEv(e) => e.env_getters_agree>>,
+     <<"cached_level2", IsEnvEv(e) => new.l2 = e.l2>>,
+     <<"record_lengths", IsEnvEv(e) => \A a \in 1..Len(new.books) : Len(new.rec[a]) = e.rec_len[a] /\ Len(new.tvols[a]) = e.rec_len[a]>>,
+     <<"record_last_entries", IsEnvEv(e) => \A a \in 1..Len(new.books) : e.rec_len[a] > 0 => RecLast(new, a) = e.rec_last[a]>>,
+     <<"record_series", ("rec" \in DOMAIN e) => \A a \in 1..Len(new.books) : RecViews(new, a) = e.rec[a]>>,
+     <<"all_asset_queries", ("mkt" \in DOMAIN e) => MktViews(new) = e.mkt>> >>
   \o BooksDelta(old, new, e, 1)
 
 \* ---- property clauses on the (validated) successor ------------------------------------
@@ -159,8 +164,39 @@ Finish(e, old, new, lbl) ==
 
 \* submissions and trading toggles
 Call ==
-  /\ l <= Len(Rec) /\ Rec[l].op \in {"submit", "enable", "disable"} /\ bad = "" /\ ~st.on
+  /\ l <= Len(Rec) /\ Rec[l].op \in {"submit", "enable", "disable"} /\ IsEnvEv(Rec[l]) /\ bad = "" /\ ~st.on
   /\ LET e == Rec[l]  lbl == LabelOf(e) IN Finish(e, m, ApplyEnv(m, lbl, <<>>), lbl)
+  /\ st' = Idle
+
+\* ---- direct operations on a Market (C14): one book addressed, or the clock / flags fanned out ----
+MktLabelOf(e) ==
+  CASE e.op \in {"create", "cap"} -> [op |-> e.op, a |-> e.a, side |-> e.side, vol |-> e.vol, tr |-> e.tr, price |-> e.price, ret |-> e.ret]
+    [] e.op \in {"place", "cancel"} -> [op |-> e.op, a |-> e.a, id |-> e.id]
+    [] e.op = "modify" -> [op |-> "modify", a |-> e.a, id |-> e.id, p |-> e.p, v |-> e.v]
+    [] e.op = "event"  -> [op |-> "event", a |-> e.a, k |-> e.k, id |-> e.id, p |-> e.p, v |-> e.v]
+    [] e.op = "settime" -> [op |-> "settime", t |-> e.t]
+    [] e.op = "reload"  -> [op |-> "reload", mode |-> e.mode]
+    [] OTHER -> [op |-> e.op]
+
+MktClauses(old, new, lbl, audit) ==
+  << <<"C14_SharedClock", C14_SharedClock(new)>>,
+     <<"C14_other_assets_untouched", lbl.op \in PerAsset =>
+          \A a \in 1..Len(new.books) : a # lbl.a + 1 => new.books[a] = old.books[a]>>,
+     <<"C14_ids_are_per_asset_sequence_numbers", lbl.op \in {"create", "cap"} => RetMkt(old, lbl) = lbl.ret>>,
+     <<"book_step_clauses", lbl.op \in PerAsset => StepOK(old.books[lbl.a + 1], new.books[lbl.a + 1], lbl)>>,
+     <<"fan_out_step_clauses", lbl.op \notin PerAsset =>
+          \A a \in 1..Len(new.books) : StepOK(old.books[a], new.books[a], lbl)>>,
+     <<"book_state_clauses", audit => \A a \in 1..Len(new.books) : StateOK(new.books[a]) /\ C03_TimeOrdered(new.books[a])>> >>
+
+MktCall ==
+  /\ l <= Len(Rec) /\ bad = "" /\ ~st.on
+  /\ Rec[l].op \in PerAsset \cup {"settime", "resettv", "reload"} \/ (Rec[l].op \in {"enable", "disable"} /\ ~IsEnvEv(Rec[l]))
+  /\ LET e == Rec[l]  lbl == MktLabelOf(e)  new == ApplyMkt(m, lbl)
+         d == FirstFalse(EnvDelta(m, new, e))
+         c == IF d # "" THEN "" ELSE FirstFalse(MktClauses(m, new, lbl, e.audit))
+     IN /\ m' = new
+        /\ bad' = IF d # "" THEN "MISMATCH:" \o d ELSE IF c # "" THEN "CLAUSE:" \o c ELSE ""
+        /\ l' = IF bad' = "" THEN l + 1 ELSE l
   /\ st' = Idle
 
 \* a step whose processing order the hook reported
@@ -263,7 +299,7 @@ StepEnd ==
         /\ m' = new /\ l' = l + 1 /\ bad' = ""
   /\ st' = Idle
 
-TNext == Reset \/ Call \/ StepHook \/ StepBegin \/ (\E i \in Enabled : Process(i)) \/ StepEnd
+TNext == Reset \/ Call \/ MktCall \/ StepHook \/ StepBegin \/ (\E i \in Enabled : Process(i)) \/ StepEnd
 TSpec == TInit /\ [][TNext]_tvars
 
 \* Different schedules often lead to states that differ only in the ghost enqueue counters (the queues
